@@ -629,6 +629,21 @@ EVEN = {'abs', 'cos'}
 COMMUTATIVE = {'min', 'max', 'minimum', 'maximum'}
 
 
+def _array_valued(t, depth=0):
+    """t denotes a numpy array: a symbol declared as array input, or a slice / item selection of one"""
+    a = t.single_atom()
+    if a is None or depth > 4:
+        return False
+    if a.kind == 'sym':
+        return SYMKIND.get(a.args[0]) == 'array'
+    if a.kind == 'sub':
+        ia = a.args[1].single_atom()
+        sliced = ia is not None and (ia.kind == 'slice' or (ia.kind == 'tuple' and any(
+            x.single_atom() is not None and x.single_atom().kind == 'slice' for x in ia.args)))
+        return sliced and _array_valued(a.args[0], depth + 1)
+    return False
+
+
 def mk_call(fn, args=(), kwargs=()):
     """Canonical call atom with algebraic normalisations.  kwargs: iterable of (name, Term)."""
     fn = SYN.get(fn, fn)
@@ -724,6 +739,8 @@ def mk_call(fn, args=(), kwargs=()):
             args = [mk_tuple(xa.args)] + list(args[1:])     # concatenate([a, b]) == concatenate((a, b))
     if fn == 'copy' and len(args) == 1 and not kwargs:
         return args[0]              # a copy has the same VALUE (whether it is a copy is decided by the effect/alias rules)
+    if fn == 'array' and len(args) == 1 and not kwargs and _array_valued(args[0]):
+        return args[0]              # np.array(ndarray) has the same value
     if fn == 'array' and len(args) == 1 and not kwargs:
         xa = args[0].single_atom()
         if xa is not None and (xa.kind == 'seq' or (xa.kind == 'call' and xa.args[0] in (
